@@ -788,15 +788,34 @@ def classify_body(f, what):
     m = re.fullmatch(r"unsafe\s*\{(.*)\}", b, flags=re.S)
     if m:
         b = m.group(1).strip()
+    # one leading `let x[: T] = <receiver expression>;` (a named re-borrow / move of the receiver) is read as an alias
+    alias = {}
+    m = re.fullmatch(r"let\s+(?:mut\s+)?(\w+)\s*(?::[^=;]+)?=\s*([^;{]+);\s*(.*)", b, flags=re.S)
+    if m:
+        alias[m.group(1)] = norm(m.group(2)); b = m.group(3).strip()
+        m2 = re.fullmatch(r"unsafe\s*\{(.*)\}", b, flags=re.S)
+        if m2:
+            b = m2.group(1).strip()
     if ";" in b or "{" in b:
         lose(f"{what}: body is not a single call expression: `{norm(b)}`")
     b = norm(b)
     names = [n for n, _ in f.value_params()]
-    pass_of = {"self": "PSelf", "*self": "PStar", "**self": "PStarStar"}
-    m = re.fullmatch(r"(self|\(\*self\)|\(\*\*self\))\.(\w+)\((.*)\)", b)
-    if m:
+    class PassOf(dict):
+        # `&mut **self`, `&**self`, `&*self` are explicit re-borrows of what auto-ref would borrow anyway
+        @staticmethod
+        def canon(x):
+            x = alias.get(x, x)
+            x = re.sub(r"^&\s*(?:mut\s+)?", "", x.strip())
+            return x.strip("()").replace(" ", "")
+        def __contains__(self, x):
+            return dict.__contains__(self, self.canon(x))
+        def __getitem__(self, x):
+            return dict.__getitem__(self, self.canon(x))
+    pass_of = PassOf({"self": "PSelf", "*self": "PStar", "**self": "PStarStar"})
+    m = re.fullmatch(r"(self|\(\*self\)|\(\*\*self\)|\w+)\.(\w+)\((.*)\)", b)
+    if m and m.group(1) in pass_of:
         args = split_top(m.group(3))
-        return "MethodCall", "", m.group(2), pass_of[m.group(1).strip("()")], args == names
+        return "MethodCall", "", m.group(2), pass_of[m.group(1)], args == names
     m = re.fullmatch(r"<(\w+) as (\w+)<K>>::(\w+)\((.*)\)", b)
     if m:
         args = split_top(m.group(4))
